@@ -1102,7 +1102,14 @@ open Typing
 @[simp] theorem wf_key (s : List Nat) : WF (.atom .key s) := by simp [WF, HasTy, checkVal, typeOf]
 
 /-- a result of a unary rule of extension 2 is a well-formed value of the type the typing rule assigns -/
-theorem unV_sound (env : Env) (i : Instr) (a r : Val) (_ : WF a) (h : Spec.unV env i a = .ok r) :
+theorem wf_contract (t : Ty) (s : List Nat) : WF (.contract t s) := by simp [WF, HasTy, checkVal, typeOf]
+theorem wf_opDelegate (s : List Nat) (d : Option (List Nat)) : WF (.opDelegate s d) := by simp [WF, HasTy, checkVal, typeOf]
+theorem wf_opEmit (s tag : List Nat) (t : Ty) (p : Val) : WF (.opEmit s tag t p) ↔ HasTy p t := by
+  simp [WF, HasTy, checkVal, typeOf]
+theorem wf_opTransfer (s d e : List Nat) (m : Int) (p : Val) (t : Ty) : WF (.opTransfer s d e m p t) ↔ HasTy p t := by
+  simp [WF, HasTy, checkVal, typeOf]
+
+theorem unV_sound (env : Env) (i : Instr) (a r : Val) (hwa : WF a) (h : Spec.unV env i a = .ok r) :
     WF r ∧ unTy i (typeOf a) = some (typeOf r) := by
   cases i <;> first | (simp [Spec.unV] at h; done) | skip
   · -- NAT
@@ -1129,6 +1136,44 @@ theorem unV_sound (env : Env) (i : Instr) (a r : Val) (_ : WF a) (h : Spec.unV e
     unfold Spec.hashKeyV at h
     split at h
     · simp at h; subst h; simp [unTy, hashKeyTy, typeOf]
+    · simp at h
+  · -- ADDRESS
+    simp only [Spec.unV] at h
+    unfold Spec.addressV at h
+    split at h
+    · simp at h; subst h; simp [unTy, addressTy, typeOf]
+    · simp at h
+  · -- IMPLICIT_ACCOUNT
+    simp only [Spec.unV] at h
+    unfold Spec.implicitAccountV at h
+    split at h
+    · simp at h; subst h; simp [unTy, implicitAccountTy, typeOf, wf_contract]
+    · simp at h
+  · -- CONTRACT
+    simp only [Spec.unV] at h
+    unfold Spec.contractV at h
+    split at h
+    · split at h
+      · simp at h; subst h; simp [unTy, contractTy, typeOf]
+      · split at h
+        · simp at h; subst h; split <;> simp [unTy, contractTy, typeOf, wf_contract]
+        · simp at h; subst h; simp [unTy, contractTy, typeOf, wf_contract]
+    · simp at h
+  · -- SET_DELEGATE
+    simp only [Spec.unV] at h
+    unfold Spec.setDelegateV at h
+    split at h
+    · simp at h; subst h; simp [unTy, setDelegateTy, typeOf, wf_opDelegate]
+    · simp at h; subst h; simp [unTy, setDelegateTy, typeOf, wf_opDelegate]
+    · simp at h
+  · -- EMIT
+    rename_i tag t
+    simp only [Spec.unV, Spec.emitV] at h
+    split at h
+    · rename_i ht
+      simp at h; subst h
+      refine ⟨?_, by simp [unTy, emitTy, typeOf, ht]⟩
+      rw [wf_opEmit]; exact hasTy_iff.mpr ⟨hwa, ht⟩
     · simp at h
 
 section
@@ -1160,6 +1205,29 @@ theorem sound_unop (i : Instr) (f : Val → Res Val) (tf : Ty → Option Ty)
     simp [ht, h2, stackWF_cons, h1, hw.2]
 
 end
+
+theorem sound_TRANSFER_TOKENS (env : Env) (st st' : List Val) (hw : StackWF st)
+    (hev : Spec.step env .TRANSFER_TOKENS st = .ok st') :
+    StackWF st' ∧ Typing.step .TRANSFER_TOKENS (st.map typeOf) = some (.ok (st'.map typeOf)) := by
+  rcases st with _ | ⟨a, _ | ⟨b, _ | ⟨c, st⟩⟩⟩
+  · simp [Spec.step] at hev
+  · simp [Spec.step] at hev
+  · simp [Spec.step] at hev
+  rw [stackWF_cons, stackWF_cons, stackWF_cons] at hw
+  have hs : Spec.step env .TRANSFER_TOKENS (a :: b :: c :: st)
+      = (Spec.transferTokensV env a b c).bind fun r => .ok (r :: st) := rfl
+  rw [hs] at hev
+  unfold Spec.transferTokensV at hev
+  split at hev
+  · rename_i p m t s
+    split at hev
+    · rename_i ht
+      simp at hev; subst hev
+      refine ⟨?_, by simp [Typing.step, transferTokensTy, typeOf, ht]⟩
+      rw [stackWF_cons, wf_opTransfer]
+      exact ⟨hasTy_iff.mpr ⟨hw.1, ht⟩, hw.2.2.2⟩
+    · simp at hev
+  · simp at hev
 
 /-- PUSH and LAMBDA need the static check of their literal; every other rule without sub-programs is sound as is -/
 def isLiteral : Instr → Bool
@@ -1258,5 +1326,23 @@ theorem step_sound (env : Env) (i : Instr) (st st' : List Val) (hw : StackWF st)
   case HASH_KEY =>
     exact sound_unop env st st' hw .HASH_KEY (Spec.unV env .HASH_KEY) (unTy .HASH_KEY) (fun _ _ => rfl) rfl
       (fun _ _ => rfl) (unV_sound env .HASH_KEY) hev
+  case ADDRESS =>
+    exact sound_unop env st st' hw .ADDRESS (Spec.unV env .ADDRESS) (unTy .ADDRESS) (fun _ _ => rfl) rfl
+      (fun _ _ => rfl) (unV_sound env .ADDRESS) hev
+  case IMPLICIT_ACCOUNT =>
+    exact sound_unop env st st' hw .IMPLICIT_ACCOUNT (Spec.unV env .IMPLICIT_ACCOUNT) (unTy .IMPLICIT_ACCOUNT) (fun _ _ => rfl) rfl
+      (fun _ _ => rfl) (unV_sound env .IMPLICIT_ACCOUNT) hev
+  case CONTRACT t ep =>
+    exact sound_unop env st st' hw (.CONTRACT t ep) (Spec.unV env (.CONTRACT t ep)) (unTy (.CONTRACT t ep)) (fun _ _ => rfl) rfl
+      (fun _ _ => rfl) (unV_sound env (.CONTRACT t ep)) hev
+  case SET_DELEGATE =>
+    exact sound_unop env st st' hw .SET_DELEGATE (Spec.unV env .SET_DELEGATE) (unTy .SET_DELEGATE) (fun _ _ => rfl) rfl
+      (fun _ _ => rfl) (unV_sound env .SET_DELEGATE) hev
+  case EMIT tag t =>
+    exact sound_unop env st st' hw (.EMIT tag t) (Spec.unV env (.EMIT tag t)) (unTy (.EMIT tag t)) (fun _ _ => rfl) rfl
+      (fun _ _ => rfl) (unV_sound env (.EMIT tag t)) hev
+  case SELF ep t =>
+    simp [Spec.step] at hev; subst hev; simp [Typing.step, typeOf, stackWF_cons, hw, wf_contract]
+  case TRANSFER_TOKENS => exact sound_TRANSFER_TOKENS env st st' hw hev
 
 end Interp
